@@ -8,7 +8,8 @@
    The generator part enumerates the surface: every efun of the efun specification (MCSurface.tla is
    written from lib/efuns/func_spec.c by the check) x every argument position x every value kind, with
    the other positions holding a value of the declared type ("typ"); every binary / unary / index / range
-   operator x every combination of kinds; and, by simulation, calls with all positions random.          *)
+   operator x every combination of kinds; sscanf with every format of up to three directives x 0..3 lvalues
+   x five inputs (its result must be an integer between 0 and 4: three directives and the rest of the input, which goes to a further lvalue); and, by simulation, calls with all positions random.  *)
 EXTENDS Integers, Sequences, FiniteSets, TLC, Json
 CONSTANTS Efuns,        \* set of efun names
           MaxArgs,      \* name -> number of argument positions to vary (declared maximum, capped)
@@ -47,8 +48,15 @@ PickRange == /\ phase = "pick" /\ Sim
              /\ \E f \in Pick({"nn", "rn", "nr", "rr", "ne", "re", "nn_lv", "rr_lv"}), a \in Pick(Kinds), b \in Pick(Kinds), c \in Pick(Kinds), d \in Pick(Kinds) :
                   call' = [t |-> "rng", form |-> f, a |-> a, b |-> b, c |-> c, d |-> d]
              /\ phase' = "done"
+\* sscanf is a language form, not an efun of the specification: format directives x number of lvalues x input
+ScanDirs == {"", "%s", "%d", "%x", "%f", "%(a+)", "%*s", "%*d", " ", "x"}
+ScanInputs == {"ab 12", "xaaa1.5x", "0x1f 7", "ab0", ""}
+PickScan == /\ phase = "pick"
+            /\ \E d1 \in Pick(ScanDirs), d2 \in Pick(ScanDirs), d3 \in Pick(ScanDirs), n \in Pick(0..3), i \in Pick(ScanInputs) :
+                 call' = [t |-> "scan", fmt |-> d1 \o d2 \o d3, nlv |-> n, inp |-> i]
+            /\ phase' = "done"
 Done == phase = "done" /\ UNCHANGED vars
-Next == PickEfunPos \/ PickEfunAll \/ PickBin \/ PickUn \/ PickIndex \/ PickRange \/ Done
+Next == PickEfunPos \/ PickEfunAll \/ PickBin \/ PickUn \/ PickIndex \/ PickRange \/ PickScan \/ Done
 Spec == Init /\ [][Next]_vars
 Emit == phase = "done" => PrintT(<<"@@B", ToJson(call)>>)
 =============================================================================
